@@ -124,6 +124,7 @@ class SettingHarness(Harness):
             if not hasattr(self, "_window"):
                 self._window = es_setting_window(self.cfg, self.sid)
             fake.es_settings = [default(("s", i)) if i in self._window else (i * 37 + 11) % 251 for i in range(86)]
+        self._st = inv._settings.get(self.sid)
         return drive(inv.read_setting(self.sid))
 
     def symbolic(self, ex):
@@ -141,6 +142,19 @@ class SettingHarness(Harness):
         X = G.exceptions
         try:
             v = self._run(G, default, const_crc)
+            st = self._st
+            if v is not None and st is not None and S.cls_name(st) in ("EcoModeV1", "EcoModeV2", "Schedule", "PeakShavingMode") \
+                    and (self.cfg["family"] != "ES" or st.offset > 30000 or S.cls_name(st) == "EcoModeV1"):
+                # the other half of totality: a group whose registers cannot be interpreted (hour > 23, power/SoC out of
+                # range, unknown on/off byte ...) is reported as ValueError, not as a value
+                n = (st.size_ + 1) // 2
+                b = []
+                for a in range(st.offset, st.offset + n):
+                    r = z3.Int(f"r{a}")
+                    b += [r / 256, r % 256]
+                ref = S.reference(S.cls_name(st), st, b[:st.size_])
+                if ref is not None and ref[0] == "group":
+                    ex.check(ref[1], "registers that cannot be interpreted are reported as a value")
             return "value" if v is not None else "none"
         except ValueError:
             return "ValueError"
@@ -161,7 +175,18 @@ class SettingHarness(Harness):
         fam = self.cfg["family"]
         try:
             v = self._run(R, default, None)
-            return {"outcome": "value" if v is not None else "none", "violation": None, "observed": f"{fam}.read_setting({self.sid}) -> {v!r}"}
+            st, viol = self._st, None
+            if v is not None and st is not None and S.cls_name(st) in ("EcoModeV1", "EcoModeV2", "Schedule", "PeakShavingMode") \
+                    and (fam != "ES" or st.offset > 30000 or S.cls_name(st) == "EcoModeV1"):
+                n = (st.size_ + 1) // 2
+                b = []
+                for a in range(st.offset, st.offset + n):
+                    r = inputs.get(f"r{a}", 0)
+                    b += [z3.IntVal(r // 256), z3.IntVal(r % 256)]
+                ref = S.reference(S.cls_name(st), st, b[:st.size_])
+                if ref is not None and ref[0] == "group" and not z3.is_true(z3.simplify(ref[1])):
+                    viol = f"{fam}.read_setting({self.sid}): uninterpretable registers reported as a value"
+            return {"outcome": "value" if v is not None else "none", "violation": viol, "observed": f"{fam}.read_setting({self.sid}) -> {v!r}"}
         except ValueError as e:
             return {"outcome": "ValueError", "violation": None, "observed": f"ValueError {e}"}
         except R.exceptions.InverterError as e:
